@@ -585,6 +585,17 @@ func (st *State) applySpec(spec *FuncSpec, sig *types.Signature, args []Value, p
 	}
 	// channel counters are exempt from modifies clauses (and from the callee's frame check): a callee whose body
 	// (transitively, through static calls) contains channel operations may have changed them
+	// scratch ghost variables are arbitrary after any contract call (the writer's own postcondition then says what it left)
+	{
+		var sn []string
+		for n := range e.scratchHeaps() {
+			sn = append(sn, n)
+		}
+		sort.Strings(sn)
+		for _, n := range sn {
+			st.heapHavoc(n, e.scratchSorts[n])
+		}
+	}
 	if callee != nil {
 		names := map[string]bool{}
 		e.chanCounters(callee, 0, names, map[*ssa.Function]bool{})
@@ -1633,6 +1644,9 @@ func (u *Unit) checkFrame(st *State, pos token.Pos) {
 	}
 	sort.Strings(names)
 	for _, n := range names {
+		if e.scratchHeaps()[n] {
+			continue // scratch ghost variable: nobody may rely on it across a call
+		}
 		if allowedAll[n] || n == "RO" || strings.HasPrefix(n, "NC_") || strings.HasPrefix(n, "NCF_") || strings.HasPrefix(n, "NCR_") || strings.HasPrefix(n, "NCS_") || strings.HasPrefix(n, "CH_") {
 			continue
 		}
@@ -1972,4 +1986,22 @@ func (e *Engine) chanCounters(fn *ssa.Function, depth int, out map[string]bool, 
 	for _, af := range fn.AnonFuncs {
 		e.chanCounters(af, depth+1, out, seen)
 	}
+}
+
+
+// scratchHeaps: heap names of the ghost variables declared `ghost scratch var`
+func (e *Engine) scratchHeaps() map[string]bool {
+	if e.scratchSet != nil {
+		return e.scratchSet
+	}
+	e.scratchSet = map[string]bool{}
+	e.scratchSorts = map[string]Sort{}
+	for _, gd := range e.specs.Ghosts {
+		if gd.Scratch && !gd.IsField {
+			hn := "GH_" + sanitize(gd.PkgName+"_"+gd.Name)
+			e.scratchSet[hn] = true
+			e.scratchSorts[hn] = e.sortOf(e.resolveType(gd.Type, gd.PkgName))
+		}
+	}
+	return e.scratchSet
 }
